@@ -17,6 +17,8 @@ pub const LETTERS: &[&str] = &[
     "group for the newest frame with the wrong nonce", "group over the three oldest logged frames with the wrong nonce", "group for a frame id not sent yet (nonce 0)", "group for a frame id not sent yet (nonce 1)",
     "group for a frame just below the frame log", "bitfield reaching past the newest frame", "group spanning a forgotten and a logged frame", "dud group (empty bitfield)",
     "verbatim replay of the newest genuine ack frame", "verbatim replay of the 2nd newest genuine ack frame", "verbatim replay of the oldest genuine ack frame", "replay of the newest genuine ack frame with all groups repeated twice",
+    "frame window base one past the newest frame sent (no groups)", "frame window base two past the newest frame sent", "frame window base 1000 past the newest frame sent", "frame window base behind the sender's (stale)",
+    "packet window base 64 past the next packet id", "packet window base half the id space ahead",
 ];
 
 /// Builds the injected ack frame from what the sender (side 0) has emitted / been handed so far.
@@ -44,6 +46,10 @@ fn craft(letter: usize, tr: &Trace, cfg: &LwCfg) -> Option<Vec<u8>> {
         9 => if genuine.len() >= 2 { Some(Frame::AckFrame(genuine[genuine.len() - 2].clone()).write().to_vec()) } else { None },
         10 => genuine.first().map(|a| Frame::AckFrame((*a).clone()).write().to_vec()),
         11 => genuine.last().map(|a| { let mut b = (*a).clone(); let g = b.frame_acks.clone(); b.frame_acks.extend(g); Frame::AckFrame(b).write().to_vec() }),
+        12 | 13 | 14 | 15 => { let fb = match letter { 12 => next.wrapping_add(1), 13 => next.wrapping_add(2), 14 => next.wrapping_add(1000), _ => p.tx_frame_base.wrapping_sub(1) };
+            Some(Frame::AckFrame(AckFrame { frame_window_base_id: fb, packet_window_base_id: p.tx_packet_base, frame_acks: vec![] }).write().to_vec()) }
+        16 | 17 => { let pb = if letter == 16 { p.tx_packet_next.wrapping_add(64) & 0xFFFFF } else { p.tx_packet_next.wrapping_add(0x80000) & 0xFFFFF };
+            Some(Frame::AckFrame(AckFrame { frame_window_base_id: p.tx_frame_base, packet_window_base_id: pb, frame_acks: vec![] }).write().to_vec()) }
         _ => None,
     }
 }
@@ -110,7 +116,7 @@ pub fn build(quick: bool) -> PropRun {
     }
     let mut w = WITNESSES.to_vec(); while w.len() < 20 { w.push("-"); } w.push("an ack frame was injected");
     PropRun { level: "model_checking", scenarios: scs, units: vec![], replay_case: None, summary: Summary {
-        rule: "for every baseline (script x configuration x fault choices), every round r of the window and every letter of the ack alphabet (wrong nonce, unsent / forgotten frame ids, bitfields past the log, empty groups, verbatim and doubled replays of genuine ack frames; window-base fields set to values the sender already knows) the twin run with that one extra frame is compared with the baseline from r on: emitted frames, RTT estimate, allowed rate, pending flag, send buffer size, queue lengths, deliveries".into(),
+        rule: "for every baseline (script x configuration x fault choices), every round r of the window and every letter of the ack alphabet (wrong nonce, unsent / forgotten frame ids, bitfields past the log, empty groups, verbatim and doubled replays of genuine ack frames with window-base fields the sender already knows; frame / packet window bases beyond anything sent, and stale ones) the twin run with that one extra frame is compared with the baseline from r on: emitted frames, RTT estimate, allowed rate, pending flag, send buffer size, queue lengths, deliveries".into(),
         bounds: json!({"window_rounds": window, "alphabet": LETTERS, "baseline_faults_d": d, "baselines": if quick { 12 } else { 18 }}),
         assumptions: vec!["link world as for C01; the twin run receives the same environment answers as the baseline (same choice vector), so any divergence is caused by the injected frame".into()],
         witness_names: w, extra: json!({}), exhaustive: true } }
